@@ -104,6 +104,8 @@ def run_script(case, stats):
             pauses += 1
         elif rng.random() < 0.2:
             items.append(("pause", 0.002))
+        elif timeout is None and rng.random() < 0.1 and pos < len(stream):
+            items.append(("pause", 0.08))      # with timeout None a read must simply wait for the peer
     outbound = [scen.blob(case["seed"] + "w%d" % i, rng.choice([1, 24, 3000, 40000])) for i in range(rng.randint(1, 4))]
     items.append(("recv", sum(len(o) for o in outbound)))
     second = scen.blob(case["seed"] + "second", 500)
@@ -135,6 +137,9 @@ def run_script(case, stats):
             except exc_name:
                 timeouts_seen.append(time.monotonic() - t0)
                 continue
+            except Exception as e:  # noqa
+                viol.append({"mechanism": "read-raised:%s" % type(e).__name__, "detail": "sync bulk_read(%d, %r) raised %s: %s" % (n, timeout, type(e).__name__, str(e)[:120])})
+                break
             if not d:
                 viol.append({"mechanism": "empty-read", "detail": "sync bulk_read returned b'' before the peer closed"})
                 break
@@ -178,7 +183,12 @@ def run_script(case, stats):
                     d = await t.bulk_read(n, timeout)
                 except exc_name:
                     timeouts_seen.append(time.monotonic() - t0)
+                    if timeout:
+                        await asyncio.sleep(timeout * 0.6)   # idle for a while: data that arrives now belongs to the NEXT read
                     continue
+                except Exception as e:  # noqa
+                    viol.append({"mechanism": "read-raised:%s" % type(e).__name__, "detail": "async bulk_read(%d, %r) raised %s: %s" % (n, timeout, type(e).__name__, str(e)[:120])})
+                    break
                 if not d:
                     viol.append({"mechanism": "empty-read", "detail": "async bulk_read returned b'' before the peer closed"})
                     break
@@ -223,6 +233,8 @@ def run_script(case, stats):
         n = min(len(data), len(stream))
         k = next((i for i in range(n) if data[i] != stream[i]), n)
         viol.append({"mechanism": "stream-mismatch", "detail": "%s: read %d bytes, peer sent %d; first difference at %d" % (where, len(data), len(stream), k)})
+    if timeout is None and timeouts_seen:
+        viol.append({"mechanism": "timeout-with-none", "detail": "%s: bulk_read(n, None) raised TcpTimeoutException %d times (first after %.3f s); with no timeout a read must wait for the peer" % (where, len(timeouts_seen), timeouts_seen[0])})
     if timeout:
         for dt in timeouts_seen:
             if dt < 0.8 * timeout:
